@@ -232,7 +232,7 @@ def run(rep, tier, seed):
         body = [BC.BHEADER]
         for n, (tag, r, _) in enumerate(chunk):
             body.append("Definition g%d := %s.\nDefinition T%d := %s." % (n, gl_grammar(r.dump), n, gl_table(r.dump)))
-            body.append("Eval vm_compute in [wf_grammar_b g%d; sound_b g%d T%d; complete_b g%d T%d; has_actions_b T%d]." % (n, n, n, n, n, n))
+            body.append("Eval vm_compute in [wf_grammar_b g%d; sound_b g%d T%d; complete_b g%d T%d; has_actions_b T%d; viable_b g%d T%d]." % (n, n, n, n, n, n, n, n))
         vj.append(("c12v_%d" % (k0 // 8), "\n".join(body) + "\n", [c[0] for c in chunk]))
     vouts = coq_eval_many([(j[0], j[1]) for j in vj])
     nval = 0
@@ -245,9 +245,9 @@ def run(rep, tier, seed):
             if v is None:
                 rep.violation("coq-eval", "Coq evaluation failed", dict(grammar=r.case.grammar, out=out[-800:]), found_input=False)
             elif not all(v):
-                rep.violation("validator", "wf/sound/complete/has_actions false on the real table of an in-scope grammar",
+                rep.violation("validator", "wf/sound/complete/has_actions/viable false on the real table of an in-scope grammar",
                               dict(grammar=r.case.grammar, table=r.case.table, vals=v,
-                                   obligation="hypotheses of Properties.C12.error_no_continuation"), found_input=False)
+                                   obligation="hypotheses of Properties.C12.error_is_first_offender"), found_input=False)
             else:
                 nval += 1
     ev = BC.byte_jobs("c12", lr_items)
